@@ -236,7 +236,9 @@ def build : Stmt → Nat → Option Nat → Jumps → BState → BState × Optio
     let c := ensure prev cur σ
     let r := buildE e c.1 c.2
     -- a bare temporary (value of a lifted expression) is not added to the block
-    (if isTmpVar r.1 then r.2.2 else addStmt r.2.1 (.expr r.1) r.2.2, some r.2.1)
+    (match isTmpVar r.1 with
+      | true => r.2.2
+      | false => addStmt r.2.1 (.expr r.1) r.2.2, some r.2.1)
   | .pass, prev, cur, _, σ =>
     let c := ensure prev cur σ
     (c.2, some c.1)
@@ -314,16 +316,24 @@ structure Cfg where
   blocks : List Block
   deriving DecidableEq, Repr, Inhabited
 
+/-- add the elements of `xs` that are not yet in `acc` -/
+def addAll (acc xs : List Nat) : List Nat :=
+  xs.foldl (fun acc s => if acc.contains s then acc else acc ++ [s]) acc
+
 /-- one round of `update_reachable`: everything reachable in one more step -/
 def reachStep (blocks : List Block) (seen : List Nat) : List Nat :=
-  seen.foldl (fun acc b => ((blocks.getD b {}).succs).foldl (fun acc s => if acc.contains s then acc else acc ++ [s]) acc) seen
+  seen.foldl (fun acc b => addAll acc (blocks[b]?.getD {}).succs) seen
 
 def reachIter (blocks : List Block) : Nat → List Nat → List Nat
   | 0, seen => seen
   | n + 1, seen => reachIter blocks n (reachStep blocks seen)
 
-/-- blocks reachable from the entry over real edges -/
-def reachable (blocks : List Block) : List Nat := reachIter blocks blocks.length [0]
+/-- blocks reachable from the entry over real edges (`CFG.update_reachable`).  The search is run for as
+    many rounds as there are blocks, which always suffices; that it has converged is *checked* (`none`
+    otherwise, never observed) so that the result is closed under successors by construction. -/
+def reachable (blocks : List Block) : Option (List Nat) :=
+  let r := reachIter blocks blocks.length [0]
+  if reachStep blocks r == r then some r else none
 
 inductive BuildErr where
   | unsupported | internal | expectedReturn
@@ -335,7 +345,7 @@ def setReach (r : List Nat) (blocks : List Block) : List Block :=
 /-- pruning: unreachable blocks keep only successors that are unreachable; dummy edges into reachable
     blocks are dropped -/
 def prune (blocks : List Block) : List Block :=
-  let isR := fun i => (blocks.getD i {}).reach
+  let isR := fun i => (blocks[i]?.getD {}).reach
   blocks.map fun B =>
     { B with succs := if B.reach then B.succs else B.succs.filter fun s => !isR s
              dsuccs := B.dsuccs.filter fun s => !isR s }
@@ -348,16 +358,18 @@ def buildCfg (returnsNone : Bool) (body : Stmt) : Except BuildErr Cfg :=
   if r.1.bad then .error .unsupported
   else if r.1.internal then .error .internal
   else
-    let rs := reachable r.1.blocks
-    let bl := setReach rs r.1.blocks
-    match r.2 with
-    | none => .ok ⟨prune bl⟩
-    | some fin =>
-      let σ := link fin 1 { r.1 with blocks := bl }
-      if rs.contains fin then
-        if returnsNone then .ok ⟨prune (σ.blocks.modify 1 fun B => { B with reach := true })⟩
-        else .error .expectedReturn
-      else .ok ⟨prune σ.blocks⟩
+    match reachable r.1.blocks with
+    | none => .error .unsupported
+    | some rs =>
+      let bl := setReach rs r.1.blocks
+      match r.2 with
+      | none => .ok ⟨prune bl⟩
+      | some fin =>
+        let σ := link fin 1 { r.1 with blocks := bl }
+        if rs.contains fin then
+          if returnsNone then .ok ⟨prune (σ.blocks.modify 1 fun B => { B with reach := true })⟩
+          else .error .expectedReturn
+        else .ok ⟨prune σ.blocks⟩
 
 /-! ## Execution of a CFG -/
 
@@ -382,24 +394,27 @@ def execB (env : Env) (st : BStmt) (c : Config) : Config :=
   | .ret e => let r := eval env e c.s; { c with pc := c.pc + 1, s := r.2, ret := some r.1 }
   | .ret0 => { c with pc := c.pc + 1, ret := some .none }
 
+/-- one step inside / at the end of block `B` -/
+def stepB (env : Env) (B : Block) (c : Config) : Option Config :=
+  match B.stmts[c.pc]? with
+  | some st => some (execB env st c)
+  | none =>
+    match B.succs with
+    | [t] => some { c with b := t, pc := 0 }
+    | [f, t] =>
+      match B.pred with
+      | some p =>
+        let r := eval env p c.s
+        some { c with b := if r.1.truthy then t else f, pc := 0, s := r.2 }
+      | none => none
+    | _ => none
+
 /-- one step: next statement of the block, or the jump at its end.  `none`: halted (a block without
     successors) or stuck (index out of range, two successors without predicate, more than two). -/
 def step (env : Env) (blocks : List Block) (c : Config) : Option Config :=
   match blocks[c.b]? with
   | none => none
-  | some B =>
-    match B.stmts[c.pc]? with
-    | some st => some (execB env st c)
-    | none =>
-      match B.succs with
-      | [t] => some { c with b := t, pc := 0 }
-      | [f, t] =>
-        match B.pred with
-        | some p =>
-          let r := eval env p c.s
-          some { c with b := if r.1.truthy then t else f, pc := 0, s := r.2 }
-        | none => none
-      | _ => none
+  | some B => stepB env B c
 
 def run (env : Env) (blocks : List Block) : Nat → Config → Option Config
   | 0, _ => none
